@@ -5,7 +5,7 @@ from ..isa import Isa
 from ..encoding import Instruction, Syntax, Operand
 from .registers import RiscvRegister, R0
 from .tokens import RiscvToken
-from .instructions import Li, B, Bne, Sw, Lw
+from .instructions import Li, B, Beq, Bne, Sw, Lw
 
 
 class RegisterSet(set):
@@ -159,7 +159,6 @@ def make_fcmp(mnemonic, func3, invert):
 Feq = make_fcmp("feq", 0b010, False)
 Fle = make_fcmp("fle", 0b000, False)
 Flt = make_fcmp("flt", 0b001, False)
-Fne = make_fcmp("fne", 0b010, True)
 Fgt = make_fcmp("fgt", 0b001, True)
 Fge = make_fcmp("fge", 0b000, True)
 
@@ -307,10 +306,12 @@ def pattern_sw32_reg(context, tree, c0, c1):
 @rvfxisa.pattern("stm", "CJMPF64(reg, reg)", size=2)
 def pattern_cjmp(context, tree, c0, c1):
     op, yes_label, no_label = tree.value
-    opnames = {"<": Flt, ">": Fgt, "==": Feq, "!=": Fne, ">=": Fge, "<=": Fle}
+    # There is no 'not equal' compare: use feq and jump when it gives 0.
+    opnames = {"<": Flt, ">": Fgt, "==": Feq, "!=": Feq, ">=": Fge, "<=": Fle}
     Bop = opnames[op]
+    Bcc = Beq if op == "!=" else Bne
     jmp_ins = B(no_label.name, jumps=[no_label])
     d = context.new_reg(RiscvRegister)
     context.emit(Bop(d, c0, c1))
-    context.emit(Bne(d, R0, yes_label.name, jumps=[yes_label, jmp_ins]))
+    context.emit(Bcc(d, R0, yes_label.name, jumps=[yes_label, jmp_ins]))
     context.emit(jmp_ins)
